@@ -8,6 +8,8 @@ C08 — model of include-filtered `List`/`Pull` of a `resource.Collection`.
 * `itemSlice/list/seed/pull`   `Collection.itemSlice`, `List`, the seed loop and the forwarding loop of
                     `Collection.Pull` (pkg/resource/collection.go): include → (read-mask filter, not
                     modelled: no mask) → (equivalence, not modelled: none configured)
+* `deleteLoop/Act/stepAct/runActs`   `Collection.Delete`'s optimistic read / callbacks without the lock /
+                    re-check under the lock / retry loop, under arbitrary interference
 * `Op/stepOp`       the writes `Add`, `Update`, `Update(WithCreateIfAbsent)`, `Delete` at the level of which
                     event they publish (failing writes publish nothing)
 
@@ -165,31 +167,91 @@ changed iff a successful write to `i` was published in between: `touched`. -/
 
 def touched (i : ι) (evs : List (Change ι μ)) : Bool := evs.any (fun c => decide (c.id = i))
 
-/-- `deleteLoop i attemptsLeft read t items intf`: the loop of `Delete` with `read` = the value of `i`
-as last read.  Returns the final contents and every event published meanwhile, in order. -/
-def deleteLoop (i : ι) : Nat → Option μ → Nat → List (ι × μ) → List (List (Op ι μ)) →
+/-- `deleteLoop i guard attemptsLeft read t items intf`: the loop of `Delete` with `read` = the value of
+`i` as last read.  `guard n o` = "with `n+1` attempts left, the preconditions accept the read value `o`":
+`expectedCheck(oldVal.body)` returned no error and `oldVal.body` equals `WithExpectedValue` (when given);
+both are evaluated on the value READ, after the callback ran.  Returns the final contents and every
+event published meanwhile, in order. -/
+def deleteLoop (i : ι) (guard : Nat → μ → Bool) : Nat → Option μ → Nat → List (ι × μ) → List (List (Op ι μ)) →
     List (ι × μ) × List (Change ι μ)
   | 0, _, _, items, _ => (items, [])                       -- Unavailable: "concurrent writes"
   | n + 1, read, t, items, intf =>
     match read with
-    | none => (items, [])                                  -- NotFound
+    | none => (items, [])                                  -- NotFound (or nil, nil with WithAllowMissing)
     | some o =>
       let r := runOps t items (intf.headD [])              -- callbacks / other writers, no lock held
-      if touched i r.2 then                                -- under the lock: somebody changed the item
-        let r' := deleteLoop i n (r.1.lookup i) (t + r.2.length) r.1 intf.tail
+      if !guard n o then (r.1, r.2)                        -- precondition failed: return, nothing deleted
+      else if touched i r.2 then                           -- under the lock: somebody changed the item
+        let r' := deleteLoop i guard n (r.1.lookup i) (t + r.2.length) r.1 intf.tail
         (r'.1, r.2 ++ r'.2)
       else                                                 -- actually do the delete; event built HERE
         (eraseKey i r.1, r.2 ++ [mkChange i .remove (t + r.2.length) (some o) none])
 
-/-- A write as the harness drives it: a plain write, or a `Delete` whose check callback (or a
-concurrent writer) writes to the collection between the attempts. -/
+/-! ### `Collection.Update` when the item is written between its read and its write lock
+
+`GetAndUpdate`: `get()` under the read lock (an absent item reads as the provisional empty message
+`created` when `WithCreateIfAbsent`), the change function — caller code: `WithExpectedCheck`, interceptors —
+runs with no lock held, then under the write lock `get()` again and `proto.Equal(old, oldAgain)` decides
+between `Aborted` and saving.  The comparison is BY VALUE, so the write goes through when the item was
+written meanwhile to an equal value — in particular when it was absent at the first read and has been
+created meanwhile holding exactly the empty message.  The event must then be an UPDATE from that stored
+value, not an ADD (the code after `fix:`; `writeRetryLegacy` keeps the behaviour before it). -/
+
+/-- what `get()` returns: `none` = the call fails here (ExpectAbsentPreconditionFailed / NotFound) -/
+def getForUpdate (empty : μ) (create expectAbsent : Bool) (stored : Option μ) : Option μ :=
+  match stored with
+  | some o => if expectAbsent then none else some o
+  | none => if create then some empty else none
+
+/-- `Update(i, v, …)` with `intf` = the writes that land between its read and its write lock. -/
+def writeRetry [DecidableEq μ] (empty : μ) (t : Nat) (items : List (ι × μ)) (i : ι) (v : μ)
+    (create expectAbsent : Bool) (intf : List (Op ι μ)) : List (ι × μ) × List (Change ι μ) :=
+  match getForUpdate empty create expectAbsent (items.lookup i) with
+  | none => (items, [])
+  | some rv =>
+    let r := runOps t items intf                      -- the change function: caller code, no lock held
+    match getForUpdate empty create expectAbsent (r.1.lookup i) with
+    | none => (r.1, r.2)
+    | some av =>
+      if rv ≠ av then (r.1, r.2)                      -- Aborted: "concurrent update detected"
+      else
+        let ev := match r.1.lookup i with             -- what is stored when the write lock is held
+          | none => mkChange i .add (t + r.2.length) none (some v)
+          | some _ => mkChange i .update (t + r.2.length) (some rv) (some v)
+        (setKey i v r.1, r.2 ++ [ev])
+
+/-- before the `fix:` commit: an item absent at the FIRST read was announced as ADD (no old value)
+whatever is stored at commit time. -/
+def writeRetryLegacy [DecidableEq μ] (empty : μ) (t : Nat) (items : List (ι × μ)) (i : ι) (v : μ)
+    (create expectAbsent : Bool) (intf : List (Op ι μ)) : List (ι × μ) × List (Change ι μ) :=
+  match getForUpdate empty create expectAbsent (items.lookup i) with
+  | none => (items, [])
+  | some rv =>
+    let r := runOps t items intf
+    match getForUpdate empty create expectAbsent (r.1.lookup i) with
+    | none => (r.1, r.2)
+    | some av =>
+      if rv ≠ av then (r.1, r.2)
+      else
+        let ev := match items.lookup i, r.1.lookup i with
+          | some _, some _ => mkChange i .update (t + r.2.length) (some rv) (some v)
+          | _, _ => mkChange i .add (t + r.2.length) none (some v)
+        (setKey i v r.1, r.2 ++ [ev])
+
+/-- A write as the harness drives it: a plain write, a `Delete` with its options — preconditions
+(`guard`) and a check callback (or concurrent writers) writing to the collection between the attempts —
+or an `Add`/`Update` whose change function (or concurrent writers) writes to the collection. -/
 inductive Act (ι μ : Type) where
   | op (o : Op ι μ)
-  | deleteRetry (i : ι) (intf : List (List (Op ι μ)))
+  | deleteRetry (i : ι) (intf : List (List (Op ι μ))) (guard : Nat → μ → Bool)
+  | writeRetry (i : ι) (v : μ) (create expectAbsent : Bool) (intf : List (Op ι μ)) (empty : μ)
+
+variable [DecidableEq μ]
 
 def stepAct (t : Nat) (items : List (ι × μ)) : Act ι μ → List (ι × μ) × List (Change ι μ)
   | .op o => let r := stepOp t items o; (r.1, r.2.toList)
-  | .deleteRetry i intf => deleteLoop i 5 (items.lookup i) t items intf
+  | .deleteRetry i intf guard => deleteLoop i guard 5 (items.lookup i) t items intf
+  | .writeRetry i v create expectAbsent intf empty => writeRetry empty t items i v create expectAbsent intf
 
 def runActs (t : Nat) (items : List (ι × μ)) : List (Act ι μ) → List (ι × μ) × List (Change ι μ)
   | [] => (items, [])
